@@ -190,20 +190,20 @@ REG["C13"] = {
     "quick_extra": ["replay"],
     "scope": "PARTIAL — only the last sentence of the property: 'The only transformations are the documented ones: every CR LF pair becomes LF unless keep_crlf is set (for outputs of "
              "any size), and ANSI escape sequences are removed only when strip_ansi_escaping is set.' newline::replace_crlf(bytes) == drop_cr(bytes) (left to right, a CR directly "
-             "followed by LF is dropped, nothing else changes; recursion terminates: decreases bytes.len()); TestCase::render_output == rendered (CRLF step skipped iff keep_crlf == Some(true); "
+             "followed by LF is dropped, nothing else changes; since fix 3d7e592 one pass with the loop invariant `written + drop_cr(rest) == drop_cr(all)`, termination proved); TestCase::render_output == rendered (CRLF step skipped iff keep_crlf == Some(true); "
              "ANSI stripping applied iff strip_ansi_escaping == Some(true)). Where they are applied: the expression that builds the Output of SubprocessRunner::run (extracted with @expr tail) puts what the process wrote to stdout into "
              "Output.stdout and what it wrote to stderr into Output.stderr (not swapped), each through render_output, and passes the exit status through.",
     "assumptions": [
-        "R18/R36: Cow<[u8]> modelled as Vec<u8> with the same content; [a, b].concat() concatenates; R35: windows(2).position(..) as an inline search loop; byte-string const CRLF as a function",
+        "R18: Cow<[u8]> modelled as Vec<u8> with the same content; R35: windows(2).position(..) as an inline search loop; byte-string const CRLF as a function; [T]::to_vec per std",
         "strip_ansi_escapes::strip is uninterpreted (strip_ansi)",
-        "stack depth of the recursion (one frame per CR LF pair) and running time are outside the contract",
+        "stack depth and running time are outside every contract (the recursive replace_crlf that was proved correct until fix 3d7e592 overflowed the stack on 100 000 CR LF pairs: found by the bounded run `many-crlf`, not by the proof)",
     ],
     "not_decided": ["everything that happens in bash and in the kernel — that the shell receives the expression verbatim, that each stream is captured byte for byte and attributed to its test case "
                     "(also by the single-script executor's divider parsing), the exit code, that state carried between test cases does not leak into later outputs: BOUNDED stand-in only — "
                     "verif-replay c13 N runs real bash processes: 15 payloads (empty, no final LF, CR LF / bare CR / CR CR LF mixes, TAB, ANSI, invalid UTF-8, control bytes, emoji, blank lines, "
                     "trailing CR) on stdout x two stderr payloads x exit codes 0 / 7 x keep_crlf unset / set through SubprocessRunner and through StatefulExecutor + BashRunner, all payloads in ONE script "
-                    "through BashScriptExecutor on either stream, nine texts with quotes / backslashes / `$` / globs / `{state_directory}` printed back, ANSI stripping on / off, output before a timeout, "
-                    "and a three-step sequence with pushd / export / alias / shopt state (quick N=1: 151 cases, 1.5 s)",
+                    "through BashScriptExecutor on either stream, eleven texts with quotes / backslashes / `$` / globs / every placeholder of the runner's script template printed back, four payloads that look like the single-script executor's divider, ANSI stripping on / off, that stripping removes nothing but escape sequences (KNOWN FINDING ansi-strips-more), 200 000 CR LF lines in a process of its own, (N>=3: 1.5 MB payloads,) output before a timeout, "
+                    "and a three-step sequence with pushd / export / alias / shopt state (quick N=1: 221 cases, 3 s)",
                     "merge order of the combined stream"],
 }
 
